@@ -4,22 +4,23 @@ import WD.Proofs.Pipeline.OpsFile
 set_option linter.unusedSimpArgs false
 namespace WD.Pipe
 
-variable {fs : FS} {k : Kern} {lib : Lib} {cov : Ent → Prop}
+variable {fs : FS} {k : Kern} {lib : Lib} {cov : Ent → Prop} {z : Option Nat}
 
-theorem InvOn.mono {cov' : Ent → Prop} (inv : InvOn cov fs k lib)
-    (h : ∀ e ∈ fs.ents, inTreeDir e = true → cov' e → cov e) : InvOn cov' fs k lib :=
+theorem InvOn.mono {cov' : Ent → Prop} (inv : InvOn cov z fs k lib)
+    (h : ∀ e ∈ fs.ents, inTreeDir e = true → cov' e → cov e) : InvOn cov' z fs k lib :=
   { inv with cover := fun e he hd hc => inv.cover e he hd (h e he hd hc) }
 
 /-- the file system grows: what was covered stays covered -/
-theorem InvOn.fs_grow {fs1 : FS} (inv : InvOn cov fs k lib) (hwf : fs1.WF) (h : ∀ e ∈ fs.ents, e ∈ fs1.ents) :
-    InvOn (fun e => cov e ∧ e ∈ fs.ents) fs1 k lib :=
+theorem InvOn.fs_grow {fs1 : FS} (inv : InvOn cov z fs k lib) (hwf : fs1.WF) (h : ∀ e ∈ fs.ents, e ∈ fs1.ents) :
+    InvOn (fun e => cov e ∧ e ∈ fs.ents) z fs1 k lib :=
   { wf := hwf, isRec := inv.isRec, kwd := inv.kwd, kino := inv.kino, klt := inv.klt,
     good := by
       intro w hw
       obtain ⟨e, he, h1⟩ := inv.good w hw
       exact ⟨e, h e he, h1⟩
     cover := fun e _ hd hc => inv.cover e hc.2 hd hc.1
-    pfwDom := inv.pfwDom, wfpInv := inv.wfpInv, wfpNodup := inv.wfpNodup, pfwNodup := inv.pfwNodup, cookies := inv.cookies }
+    pfwDom := inv.pfwDom, zlt := inv.zlt, zdead := inv.zdead, wfpInv := inv.wfpInv, wfpNodup := inv.wfpNodup,
+    pfwNodup := inv.pfwNodup, cookies := inv.cookies }
 
 /-- every proper, non-empty prefix of an entry's path is a directory -/
 theorem FS.WF.ancestor_dir {fs : FS} (hwf : fs.WF) : ∀ (n : Nat) (e : Ent), e ∈ fs.ents → e.path.length = n →
@@ -121,7 +122,7 @@ theorem step_mkdir (s : Sys) (p : P) (inv : InvRec s.fs s.k s.lib) (hs : s.stopp
     have hop := Sys.op_eq s _ hs hc hk hl hf
     rw [hgs] at hop
     have hrec' : (s.lib.withWatch p s.k.nextWd).recursive = true := inv.isRec
-    simp only [hrec', emitAll, List.foldl_cons, List.foldl_nil, emit, Bool.false_eq_true, if_false, List.nil_append] at hop
+    simp only [hrec', emitAll_cons, emitAll_nil, emit, Bool.false_eq_true, if_false, List.append_nil] at hop
     refine ⟨by rw [hop]; simp [contract, hw, dirMod, mkEv], by rw [hop]; simp [contract], by rw [hop]; exact hc, by rw [hop], ?_⟩
     intro _
     rw [hop]
@@ -341,7 +342,7 @@ theorem step_rmdir (s : Sys) (p : P) (inv : InvRec s.fs s.k s.lib) (hs : s.stopp
       rw [hgs]; simp [movedOut, forgetAll_nil]
     have hop := Sys.op_eq s _ hs hc hk hl hf
     rw [hgs] at hop
-    simp only [emitAll, List.foldl_cons, List.foldl_nil, emit, Bool.false_eq_true, if_false, List.nil_append, if_true] at hop
+    simp only [emitAll_cons, emitAll_nil, emit, if_true] at hop
     exact ⟨by rw [hop]; simp [contract, mkEv], by rw [hop]; simp [contract], by rw [hop]; exact hc, by rw [hop],
       fun h => by simp [contract] at h⟩
   · have hp2 : 2 ≤ p.length := by rcases hv'.1 with h | h; exact h; exact absurd h hW
